@@ -584,7 +584,9 @@ LEVEL_TEXT = ('Machine-checked Coq theorems about the Gallina model of sugar/_io
               'the model to the Python code, is differential testing on rendered files on every run.')
 LEVEL_NOTE = ('Proved: C10_single_loc_spec, C10_loc_sem, C10_split_toplevel, C10_parse_print_loc, C10_feature_locs, C10_sort_locs, '
               'C10_wrapped_loc (all inputs), C10_read_render_box_partial (finite box of 324 files x 7 exclude tuples only; the general '
-              'read_render statement is correspondence-only, claim labelled partial). The defect exclude_fts found by this check '
+              'read_render statement is proved only for the key + wrapped-location lines of a feature, C10_feature_table_locs_partial '
+              '(step function + flush, any reader state); qualifier lines, header and ORIGIN are box/correspondence-only, claim labelled '
+              'partial). The defect exclude_fts found by this check '
               '(exclude=("fts",) raised AttributeError / dropped residues) is fixed in /repo (da56cff); exclude tuples with fts are in '
               'the domain, witness in corpus/C10 and Example C10_witness_exclude_fts. Numbers in locations are the '
               'digit strings of the file; their value is the Horner value dval (int() of a digit string is proved equal to it). '
